@@ -456,24 +456,34 @@ func TestC05Fillers(t *testing.T) {
 
 // Spoofed fields stay in their advertised ranges: many fills per filler, extreme values tracked.
 type c05SpoofCase struct {
-	Kind  string `json:"kind"`
-	Seed  int64  `json:"rand_seed"`
-	Fills int    `json:"fills"`
+	Kind    string `json:"kind"`
+	Seed    int64  `json:"rand_seed"`
+	Fills   int    `json:"fills"`
+	DstPort uint16 `json:"dst_port"`
+	VPN     bool   `json:"vpn"`
 }
 
 func TestC05Spoofed(t *testing.T) {
 	fills := kit.EnvInt("C05_FILLS", 150000)
 	kit.Run(t, kit.Spec[c05SpoofCase]{
 		Prop: "C05",
-		Rule: "per case one filler (tcp/udp/icmp) fills many frames under one rand seed; every frame: IP id != 0, source port in 32768..60999 (tcp/udp); non-trivial: always; distinct by (kind,seed)",
+		Rule: "per case one filler (tcp/udp/icmp, either link mode) fills 150000 frames under one rand seed for one destination port drawn from the edges of the spoofed range and of the port space (0, 1, 32767..32769, 60998..61000, 65535) or any port; every frame: IP id != 0, source port in 32768..60999 (tcp/udp); non-trivial: always; distinct by case",
 		Gen: func(t *rapid.T) c05SpoofCase {
-			return c05SpoofCase{Kind: rapid.SampledFrom([]string{"tcp", "udp", "icmp"}).Draw(t, "kind"),
+			c := c05SpoofCase{Kind: rapid.SampledFrom([]string{"tcp", "udp", "icmp"}).Draw(t, "kind"),
 				Seed: rapid.Int64().Draw(t, "seed"), Fills: fills}
+			// destination ports at the edges of the spoofed source-port range (and of the port space) as well as any port:
+			// whatever relation the filler sees between the two ports must not push the source port out of its range
+			c.DstPort = uint16(rapid.SampledFrom([]int{80, 0, 1, 32767, 32768, 32769, 60998, 60999, 60999, 61000, 65535}).Draw(t, "dstport"))
+			if c.DstPort == 65535 && rapid.Bool().Draw(t, "any-port") {
+				c.DstPort = uint16(kit.UniformInt64(t, "port", 0, 65535))
+			}
+			c.VPN = rapid.Bool().Draw(t, "vpn")
+			return c
 		},
 		Check: func(c c05SpoofCase) *kit.Verdict {
 			v := &kit.Verdict{NonTrivial: true, Units: c.Fills}
 			v.Label("kind=%s", c.Kind)
-			cc := c05Case{Kind: c.Kind, VPN: true, SrcIP: [4]byte{10, 1, 2, 3}, DstIP: [4]byte{10, 3, 2, 1}, DstPort: 80,
+			cc := c05Case{Kind: c.Kind, VPN: c.VPN, SrcIP: [4]byte{10, 1, 2, 3}, DstIP: [4]byte{10, 3, 2, 1}, DstPort: c.DstPort,
 				TCPFlags: wire.SYN, FlagPerm: []int{0, 1, 2, 3, 4, 5, 6, 7, 8}, TTL: 64, IPFlags: 2, Type: 8, Direct: true}
 			rand.Seed(c.Seed)
 			f, err := c05Filler(cc)
@@ -491,6 +501,9 @@ func TestC05Spoofed(t *testing.T) {
 					return v.Failf("Fill: %v", err)
 				}
 				d := buf.Bytes()
+				if !c.VPN && len(d) >= 14 {
+					d = d[14:]
+				}
 				if len(d) < 28 {
 					return v.Failf("short frame %x", d)
 				}
